@@ -280,7 +280,14 @@ class KeyProcessor:
                 self.before_key_press.fire()
 
             try:
-                self._process_coroutine.send(key_press)
+                if is_cpr:
+                    # CPR responses are sent by the terminal, not typed by the
+                    # user. Handle them on their own, so that a response that
+                    # arrives between two keys of a key sequence (e.g. `c-x`,
+                    # CPR, `c-x`) doesn't break that sequence.
+                    self._process_cpr_response(key_press)
+                else:
+                    self._process_coroutine.send(key_press)
             except Exception:
                 # If for some reason something goes wrong in the parser, (maybe
                 # an exception was raised) restart the processor for next time.
@@ -294,6 +301,26 @@ class KeyProcessor:
         # Skip timeout if the last key was flush.
         if not is_flush:
             self._start_timeout()
+
+    def _process_cpr_response(self, key_press: KeyPress) -> None:
+        """
+        Call the handler for a CPR response directly, without going through the
+        key buffer: the key sequence that is being typed, the repeat argument,
+        the "previous key" information and a macro that is being recorded are
+        all left alone.
+        """
+        matches = self._get_matches([key_press])
+
+        if matches:
+            matches[-1].call(
+                KeyPressEvent(
+                    weakref.ref(self),
+                    arg=None,
+                    key_sequence=[key_press],
+                    previous_key_sequence=self._previous_key_sequence,
+                    is_repeat=False,
+                )
+            )
 
     def empty_queue(self) -> list[KeyPress]:
         """
